@@ -474,6 +474,8 @@ theorem compute_refines_aux0 (N : Nat) : ∀ node : Node, sizeOf node < N → No
     · -- if
       rename_i cond t f
       split at hd
+      · cases hd
+      split at hd
       · rename_i a b ha hb
         cases hd
         simp only [Cmd.loopFree, Bool.and_eq_true] at hlf
@@ -497,10 +499,14 @@ theorem compute_refines_aux0 (N : Nat) : ∀ node : Node, sizeOf node < N → No
       · cases hd
     · -- while
       rename_i b
+      split at hd
+      · cases hd
       cases hdb : desugar b <;> simp [hdb] at hd
       subst hd
       simp [Cmd.loopFree] at hlf
     · rename_i b
+      split at hd
+      · cases hd
       cases hdb : desugar b <;> simp [hdb] at hd
       subst hd
       simp [Cmd.loopFree] at hlf
@@ -640,7 +646,7 @@ example : ∃ cmd,
         (some (.assign "=" (.id "z") (.binop "*" (.cast (.id "y")) (.const "int" "2")))),
       .unop "--" (.id "z"), .empty])) = some cmd ∧
     cmd.loopFree = true ∧ cmd.arity = 4 ∧ cmd.swaps = [true, false, false, false] := by
-  refine ⟨_, by simp [desugar, desugarL, desugarO, Node.rmCast, atomOf]; rfl, by decide, by decide,
+  refine ⟨_, by simp [desugar, desugarL, desugarO, Node.rmCast, atomOf, changesVariable]; rfl, by decide, by decide,
     by decide⟩
 
 open Refine in
